@@ -12,7 +12,7 @@ queue jumps the virtual clock by the socket timeout and raises TimeoutError.
 import socket as _real_socket
 from collections import deque
 
-from .kernel import Sim, SimBudgetExceeded
+from .kernel import Sim, HarnessError, SimBudgetExceeded
 
 FATAL = ("peer_fin", "peer_rst", "send_epipe", "send_rst")
 
@@ -82,6 +82,43 @@ class SimSocket:
 
     def setsockopt(self, *a):
         pass
+
+    def gettimeout(self):
+        return self.timeout
+
+    def getsockopt(self, *a):
+        return 0
+
+    def setblocking(self, flag):
+        self.timeout = None if flag else 0.0
+
+    def shutdown(self, how):
+        if self.closed:
+            raise OSError(9, "Bad file descriptor")
+
+    def fileno(self):
+        return -1 if self.closed else 1000 + self.net.sockets.index(self)
+
+    def getsockname(self):
+        return (self.bound or self.net.local_addrs[0][1], 0)
+
+    def getpeername(self):
+        if self.conn is None:
+            raise OSError(107, "Transport endpoint is not connected")
+        return self.conn.peer_name
+
+    def __enter__(self):
+        return self
+
+    def __exit__(self, *exc):
+        self.close()
+        return False
+
+    def __getattr__(self, name):
+        # a socket method the simulation does not know must not look like a defect of the library
+        if name.startswith("_"):
+            raise AttributeError(name)
+        raise HarnessError(f"library reached socket.socket.{name}: not simulated")
 
     def bind(self, addr):
         self.bound = addr[0]
@@ -291,6 +328,16 @@ class SimSocketModule:
 
     def __init__(self, net):
         self._net = net
+
+    def __getattr__(self, name):
+        """constants (option names, protocol numbers, flags) and exception classes the library may use are the
+        real ones; anything that would touch the real network is not available"""
+        if name.startswith("_"):
+            raise AttributeError(name)
+        v = getattr(_real_socket, name)
+        if isinstance(v, (int, str, bytes)) or (isinstance(v, type) and (issubclass(v, BaseException) or hasattr(v, "__members__"))):
+            return v
+        raise HarnessError(f"library reached socket.{name}: not simulated")
 
     def socket(self, family=_real_socket.AF_INET, type=_real_socket.SOCK_STREAM, proto=0):
         return SimSocket(self._net, family, type)
